@@ -44,8 +44,8 @@ impl Check for C20 {
     }
     fn runs(&self, tier: Tier) -> u64 {
         match tier {
-            Tier::Quick => 3_000,
-            Tier::Thorough => 150_000,
+            Tier::Quick => 25_000,
+            Tier::Thorough => 1_000_000,
         }
     }
     fn run(&self, tape: &mut Tape, ctx: &RunCtx) -> RunOut {
